@@ -114,6 +114,7 @@ func ruleLookahead(c *Ctx, r *Report, prefix string) {
 		if v == nil || fBuf[i] == nil {
 			continue
 		}
+		c.curRoot, c.bindParam = v, nil // a shared helper (verifyEncoderParams) is looked at through this Verify's call
 		for _, g := range guardsOf(v) {
 			if g.call != nil {
 				continue
